@@ -228,7 +228,19 @@ func c18() int {
 								failedFlag = true
 							}
 						} else {
-							body, _ := json.Marshal(bulk)
+							// the body as a client writes it: a field the element does not use is absent, not empty
+							var elems []map[string]interface{}
+							for _, el := range bulk {
+								m := map[string]interface{}{"action": el.Action}
+								if el.IdempotencyKey != "" {
+									m["ik"] = el.IdempotencyKey
+								}
+								if len(el.Data) > 0 {
+									m["data"] = el.Data
+								}
+								elems = append(elems, m)
+							}
+							body, _ := json.Marshal(elems)
 							url := "/api/ledger/v2/l1/_bulk"
 							if cof {
 								url += "?continueOnFailure=true"
